@@ -10,11 +10,19 @@ def renderRaw (pts : List Pt) (desc : Bool) : String :=
   let sorted := sortBy (fun a b => if desc then a.t > b.t else a.t < b.t) pts
   "[m{}(time,v)" ++ String.join (sorted.map fun p => s!" {p.t},{p.v}") ++ "]"
 
+def renderStar (pts : List Pt) (name cols : String) (cell : Pt → String) : String :=
+  if pts.isEmpty then "-" else
+  let sorted := sortBy (fun a b => a.t < b.t) pts
+  "[" ++ name ++ "{}(" ++ cols ++ ")" ++ String.join (sorted.map fun p => " " ++ cell p) ++ "]"
+
 def step1 (s : St) (line : String) : St × String :=
   match Driver.splitWs line with
   | ["creset", n] =>
     let n := n.toNat!
     ({ n := n, shards := [], status := List.replicate n .up }, "ok")
+  | ["creset", n, "slow"] =>
+    let n := n.toNat!
+    ({ n := n, shards := [], status := List.replicate n .up, slowOK := true }, "ok")
   | ["sg", lo, hi, owners] =>
     match lo.toInt?, hi.toInt? with
     | some lo, some hi =>
@@ -42,7 +50,8 @@ def step1 (s : St) (line : String) : St × String :=
       if i ≥ s.n then (s, "bad-op") else
       if statusOf s i == .down then (s, "ok") else
       let st := if kind == "none" then some Status.up else if kind == "err" then some Status.errFault
-                else if kind.startsWith "mid:" || kind == "cut" then some Status.midFault else none
+                else if kind.startsWith "mid:" || kind == "cut" then some Status.midFault
+                else if kind == "slow" && s.slowOK then some Status.slow else none
       match st with
       | some st => ({ s with status := s.status.set i st }, "ok")
       | none => (s, "bad-op")
@@ -57,6 +66,13 @@ def step1 (s : St) (line : String) : St × String :=
         | "raw" => renderRaw pts false
         | "rawdesc" => renderRaw pts true
         | "count" => if pts.isEmpty then "-" else s!"[m\{}(time,count) {lo},{pts.length}]"
+        | "count2" => if pts.isEmpty then "-" else s!"[m2\{}(time,count) {lo},{pts.length}]"
+        | "star" => renderStar pts "m" "time,host,v" (fun p => s!"{p.t},h{p.host},{p.v}")
+        | "star2" => renderStar pts "m2" "time,host,w" (fun p => s!"{p.t},h{p.host},{p.v}")
+        | "both" =>
+          if pts.isEmpty then "-" else
+          renderStar pts "m" "time,host,v,w" (fun p => s!"{p.t},h{p.host},{p.v},null") ++
+          renderStar pts "m2" "time,host,v,w" (fun p => s!"{p.t},h{p.host},null,{p.v}")
         | "sum" =>
           let hosts := sortBy (· < ·) ((pts.map (·.host)).eraseDups)
           if hosts.isEmpty then "-" else
